@@ -22,7 +22,12 @@ Inductive c15case :=
 (* one ClusterNode.CreateCollection: number of collections of the user before/after *)
 | CCreate (count maxc : Z) (existed refusedQuota refusedExists : bool) (countAfter : Z)
 (* point counts of all shards of a collection after an insert *)
-| CShardCounts (counts : list Z) (maxCount : Z).
+| CShardCounts (counts : list Z) (maxCount : Z)
+(* an insert of ONE point whose id is already stored in the shard its range is assigned to: the range must be
+   reported failed and the total must not move *)
+| CDupInsert (totalBefore totalAfter failedPoints : Z)
+(* the total reported by the shards against the number of sent ids that are found, each looked up on its own *)
+| CStored (reported stored : Z).
 
 Definition to_assignment (t : N * N * N) : assignment :=
   (N.to_nat (fst (fst t)), N.to_nat (snd (fst t)), N.to_nat (snd t)).
@@ -65,6 +70,10 @@ Definition verdict (c : c15case) : N :=
           ((countAfter =? (if refusedExists || refusedQuota then count else count + 1))%Z, 122) ]
   | CShardCounts counts maxC =>
       first_fail [ (forallb (fun x => (x <=? maxC)%Z) counts, 131) ]
+  | CDupInsert before after failed =>
+      first_fail [ ((failed =? 1)%Z, 114); ((after =? before)%Z, 115) ]
+  | CStored reported stored =>
+      first_fail [ ((reported =? stored)%Z, 116) ]
   end.
 
 Fixpoint bad_from (i : N) (cs : list c15case) : list (N * N) :=
